@@ -87,7 +87,23 @@ def generate(R: Draw, tier: str) -> dict:
     node = P.build(lib, doc)
     n = node.content.size
     desc = None
-    how = R.weighted([("op", 5), ("random", 4), ("nodemark", 5 if rs.mark_names else 0)])
+    how = R.weighted([("op", 5), ("random", 4), ("nodemark", 5 if rs.mark_names else 0), ("retyped", 2)])
+    if how == "retyped":
+        # ONE node open on both sides with other markup than the textblock(s) it is joined into, dropped between two
+        # positions at the same depth: the merged node must keep the document's markup, and undo must restore it
+        from ..ref import resolve as RR
+
+        rdoc = RR.N(doc, rs)
+        spots = []
+        for k_, s_, _par, _i, d_ in RR.all_nodes(rdoc):
+            if rs.textblock.get(k_.t):
+                spots += [(p, d_) for p in range(s_ + 1, s_ + k_.size)]
+        sl = gs.retyped_open_slice(R, g, doc)
+        if spots and sl is not None and sl["os"] == 1:
+            a, da = R.choice(spots)
+            later = [p for p, d_ in spots if p >= a and d_ == da and p <= a + 12]
+            b = R.choice(later) if later else a
+            desc = {"k": "replace", "from": a, "to": b, "slice": sl, "structure": False}
     if how == "nodemark":
         # a node that already carries marks, and a mark that interacts with them (exclusion / same type)
         from ..ref import resolve as RR
